@@ -38,6 +38,7 @@ const (
 	KWait // WaitGroup.Wait style: enabled when counter is zero
 )
 
+//go:norace
 func (k Kind) String() string {
 	return [...]string{"start", "lock", "rlock", "send", "recv", "yield", "wait"}[k]
 }
@@ -51,6 +52,7 @@ type LockState struct {
 
 var nextLockID uint32
 
+//go:norace
 func (l *LockState) id() uint32 {
 	if l.ID == 0 {
 		l.ID = atomic.AddUint32(&nextLockID, 1)
@@ -64,19 +66,28 @@ type chanState struct {
 	id    uint32
 }
 
-var chans = map[any]*chanState{} // keyed by channel value (identity)
+type chanEnt struct {
+	ch any
+	cs *chanState
+}
 
+var chans []chanEnt // keyed by channel value (identity); a slice: map accesses are race-instrumented inside the runtime
+
+//go:norace
 func chanOf(ch any, capacity int) *chanState {
-	cs, ok := chans[ch]
-	if !ok {
-		cs = &chanState{cap: capacity, id: atomic.AddUint32(&nextLockID, 1)}
-		chans[ch] = cs
+	for i := range chans {
+		if chans[i].ch == ch {
+			return chans[i].cs
+		}
 	}
+	cs := &chanState{cap: capacity, id: atomic.AddUint32(&nextLockID, 1)}
+	chans = append(chans, chanEnt{ch, cs})
 	return cs
 }
 
 // ResetChannels forgets all channel queues (called between executions by the harness).
-func ResetChannels() { chans = map[any]*chanState{} }
+//go:norace
+func ResetChannels() { chans = nil }
 
 type Thread struct {
 	ID     int
@@ -125,13 +136,16 @@ var active *Exec
 var pendingSpawns []*Thread
 
 // Active reports whether a controlled execution is running.
+//go:norace
 func Active() bool { return active != nil }
 
+//go:norace
 func NewExec(prefix []int) *Exec {
 	return &Exec{prefix: prefix, finished: make(chan struct{}), MaxPts: 200000, Fair: 2000}
 }
 
 // Spawn registers a controlled thread before Run.
+//go:norace
 func (e *Exec) Spawn(name string, fn func()) *Thread {
 	t := &Thread{ID: len(e.Threads), Name: name, wake: make(chan struct{}), exited: make(chan struct{}), kind: KStart, fn: fn}
 	e.Threads = append(e.Threads, t)
@@ -141,8 +155,8 @@ func (e *Exec) Spawn(name string, fn func()) *Thread {
 // Run executes all spawned threads under the schedule prefix (then choice 0) and returns when every
 // non-daemon thread finished, a deadlock was found or the horizon was hit. Must be called from the
 // driver goroutine, which is not a controlled thread.
+//go:norace
 func (e *Exec) Run() {
-	rd()
 	// adopt goroutines the library started while no execution was active (RequestManager loop)
 	for _, t := range pendingSpawns {
 		t.ID = len(e.Threads)
@@ -155,38 +169,45 @@ func (e *Exec) Run() {
 		e.launch(t)
 	}
 	e.dispatch(nil)
+	rd()
 	<-e.finished
+	re()
 	// unwind every thread that is still parked, one at a time, so that nothing of this execution stays
 	// reachable (a leaked goroutine would pin a whole database instance in memory)
 	for _, t := range e.Threads {
+		// (the exit of a thread is a real join edge for the race detector: what the threads wrote
+		// happens-before what the driver reads afterwards)
 		select {
 		case <-t.exited:
 			continue
 		default:
 		}
+		rd()
 		select {
 		case t.wake <- struct{}{}:
 		case <-t.exited:
 		}
+		re()
 		<-t.exited
 	}
 	active = nil
-	re()
 }
 
+//go:norace
 func (e *Exec) launch(t *Thread) {
+	// the go statement stays visible to the race detector: everything the spawner did before
+	// happens-before the new thread, as in the uninstrumented program
 	go func() {
 		rd()
 		<-t.wake
+		re()
 		if e.ended {
 			t.done = true
 			close(t.exited)
 			return
 		}
-		re()
 		defer func() {
 			r := recover()
-			rd()
 			if r != nil && !e.ended {
 				if _, ok := r.(abortExec); !ok {
 					t.Panic = r
@@ -206,6 +227,7 @@ func (e *Exec) launch(t *Thread) {
 
 type abortExec struct{}
 
+//go:norace
 func (e *Exec) enabled(t *Thread) bool {
 	if t.done {
 		return false
@@ -239,6 +261,7 @@ func (e *Exec) enabled(t *Thread) bool {
 // dispatch chooses the next thread. from == nil: the calling thread has exited (or this is the initial
 // dispatch); otherwise from is the running thread that arrived at a point with its pending op set.
 // Returns only when `from` has been chosen to run (its op is then enabled). Caller holds rd().
+//go:norace
 func (e *Exec) dispatch(from *Thread) {
 	if e.ended {
 		if from != nil {
@@ -339,31 +362,40 @@ func (e *Exec) dispatch(from *Thread) {
 		from.consec = 0
 	}
 	e.cur = next
+	rd()
 	next.wake <- struct{}{}
 	if from != nil {
 		<-from.wake
-		if e.ended {
-			panic(abortExec{})
-		}
+	}
+	re()
+	if from != nil && e.ended {
+		panic(abortExec{})
 	}
 }
 
 // park blocks a thread of an execution that is over until Run's clean-up unwinds it.
+//go:norace
 func (e *Exec) park(t *Thread) {
+	rd()
 	<-t.wake
+	re()
 	panic(abortExec{})
 }
 
+//go:norace
 func (e *Exec) finish() {
 	if !e.ended {
 		e.ended = true
 		e.cur = nil
+		rd()
 		close(e.finished)
+		re()
 	}
 }
 
 // --- operations called by the shims --------------------------------------------------------------
 
+//go:norace
 func curThread() *Thread {
 	if active == nil {
 		return nil
@@ -374,12 +406,12 @@ func curThread() *Thread {
 // LatchLeak is the panic value raised when a single-threaded phase would block forever.
 type LatchLeak struct{ What string }
 
+//go:norace
 func (l LatchLeak) Error() string { return "LATCH-LEAK: " + l.What }
 
 // Acquire blocks (cooperatively) until the lock can be taken in the given mode and takes it.
+//go:norace
 func Acquire(l *LockState, k Kind) {
-	rd()
-	defer re()
 	t := curThread()
 	if t == nil {
 		// single-threaded phase
@@ -400,9 +432,8 @@ func Acquire(l *LockState, k Kind) {
 }
 
 // TryAcquire never blocks and is not a scheduling point.
+//go:norace
 func TryAcquire(l *LockState, k Kind) bool {
-	rd()
-	defer re()
 	if l.Writer || (k == KLock && l.Readers > 0) {
 		return false
 	}
@@ -414,28 +445,24 @@ func TryAcquire(l *LockState, k Kind) bool {
 	return true
 }
 
+//go:norace
 func Release(l *LockState, k Kind) {
-	rd()
 	if k == KLock {
 		if !l.Writer {
-			re()
 			panic("vsched: unlock of unlocked mutex")
 		}
 		l.Writer = false
 	} else {
 		if l.Readers <= 0 {
-			re()
 			panic("vsched: RUnlock of unlocked RWMutex")
 		}
 		l.Readers--
 	}
-	re()
 }
 
 // Yield is an explicit scheduling point (harness step boundaries, spin loops).
+//go:norace
 func Yield() {
-	rd()
-	defer re()
 	if t := curThread(); t != nil {
 		t.kind, t.ls, t.cs = KYield, nil, nil
 		active.dispatch(t)
@@ -443,13 +470,12 @@ func Yield() {
 }
 
 // Go replaces the `go` statement in rewritten library files.
+//go:norace
 func Go(fn func()) {
 	if Mode == ModePass {
 		go fn()
 		return
 	}
-	rd()
-	defer re()
 	t := &Thread{Name: "lib-goroutine", wake: make(chan struct{}), exited: make(chan struct{}), kind: KStart, fn: fn}
 	if active == nil {
 		pendingSpawns = append(pendingSpawns, t)
@@ -469,16 +495,16 @@ func Go(fn func()) {
 
 // DropPendingSpawns forgets library goroutines that were requested while no execution was active
 // (engines that never run a controlled execution call this after creating a database).
+//go:norace
 func DropPendingSpawns() { pendingSpawns = nil }
 
 // Send replaces `ch <- v`.
+//go:norace
 func Send[T any](ch chan T, v T) {
 	if Mode == ModePass {
 		ch <- v
 		return
 	}
-	rd()
-	defer re()
 	cs := chanOf(ch, cap(ch))
 	t := curThread()
 	if t == nil {
@@ -496,12 +522,11 @@ func Send[T any](ch chan T, v T) {
 }
 
 // Recv replaces `<-ch`.
+//go:norace
 func Recv[T any](ch chan T) T {
 	if Mode == ModePass {
 		return <-ch
 	}
-	rd()
-	defer re()
 	cs := chanOf(ch, cap(ch))
 	t := curThread()
 	if t == nil {
